@@ -24,6 +24,12 @@ func TestFamily(t *testing.T) {
 	switch fam {
 	case "timer":
 		scs = timerScenarios(behs, seed, EnvInt("VERIF_NRANDOM", 200))
+	case "cont":
+		runtime.GOMAXPROCS(4)
+		scs = contScenarios(behs, seed, EnvInt("VERIF_NRANDOM", 60))
+	case "lin":
+		runtime.GOMAXPROCS(4)
+		scs = linScenarios(seed, EnvInt("VERIF_NRANDOM", 60))
 	case "wtw":
 		scs = wtwScenarios(behs, seed, EnvInt("VERIF_NRANDOM", 100))
 	case "wtr":
